@@ -1,4 +1,4 @@
-HOOK_COMMITS = ["d183566", "d0e1250", "06b8afe", "b4f4d44", "3e38372"]
+HOOK_COMMITS = ["d183566", "d0e1250", "06b8afe", "b4f4d44", "3e38372", "df3b9cc", "d08fc03"]
 NOTES = "Driver: ./check <ID> --tier quick|thorough. Exit 0 held / 1 VIOLATION / 2 inconclusive (harness trouble, never a violation). Known findings: known_findings.json."
 NOT_APPLICABLE = {}
 META = {
@@ -103,5 +103,11 @@ META = {
         "design_ref": "DESIGN.md section 4 C18",
         "note": "In-process (not a child process): the capture re-points fd 1/2, so output of linked C libraries (librdkafka) is included. Kafka targets are limited to one per case because their producers are never closed by the code under test.",
         "technique": "property-based testing (rapid), stateful generation with fault injection, invariant oracle (canary never observable)",
+    },
+    "C11": {
+        "text": "Model-based stateful testing of the task lifecycle through the real API with live replication underneath: an explicit state machine is the model, four views of the state are compared with it after every generated step (with store faults and restarts), and the cleanup obligations are checked on observable resources (reference counts, reader registrations, dispatcher registrations, traffic reaching the downstream, goroutine states). Found nine defects, all fixed: checkpoint re-created after delete, stop of one collection closes the other streams of the handler, collections added to an existing handler are never stopped, one stopped/failing task ends the shared loops of its target, pause with failing store stops the task although everything says Running, failed start leaks readers and entity, closed entity steals the channel notification of its successor, ...",
+        "design_ref": "DESIGN.md section 4 C11",
+        "note": "In-process simulator, restart = new incarnation in the same process (fenced predecessor). Liveness of running tasks is judged by quiescence, never by a timeout alone.",
+        "technique": "property-based testing (rapid), stateful model-based oracle (explicit state machine), fault injection, resource-level invariants",
     },
 }
